@@ -62,9 +62,12 @@ def eval_args(eng, e, st, fr, k):
             def cont(v, s3):
                 acc2 = dict(acc)
                 if kw.arg is None:
-                    if not isinstance(v, dict):
+                    if isinstance(v, Opq):
+                        acc2["**"] = v        # ``**d`` of an opaque dict: handed to the callee's handler as one value
+                    elif not isinstance(v, dict):
                         raise Unsupported("**kwargs of a non-literal dict")
-                    acc2.update(v)
+                    else:
+                        acc2.update(v)
                 else:
                     acc2[kw.arg] = v
                 return go(i + 1, s3, acc2)
@@ -360,6 +363,11 @@ def _len(eng, a, kw, st, fr, k, node):
         return k(z3.IntVal(len(v)), st)
     if type(v).__name__ == "ItemList":
         return k(v.cell["n"], st)
+    if isinstance(v, PySet):
+        # number of distinct elements: 1 exactly when all are equal, at most the number of elements
+        n = eng.fresh("set_size")
+        all_eq = z3.And(*[eng.equal(v.elems[0], x) for x in v.elems[1:]]) if len(v.elems) > 1 else z3.BoolVal(True)
+        return k(n, st.assume(z3.And(n >= 1, n <= len(v.elems), (n == 1) == all_eq)))
     if isinstance(v, Ref) and v.kind == "list":
         return k(st.heap[v.base]["n"], st)
     if isinstance(v, Ref) and v.kind == "msgheap":
@@ -666,6 +674,11 @@ def _pydict_keys(eng, recv, a, kw, st, fr, k, node):
     return k(list(recv.keys()), st)
 
 
+@method("pydict", "values")
+def _pydict_values(eng, recv, a, kw, st, fr, k, node):
+    return k(list(recv.values()), st)
+
+
 @method("pydict", "get")
 def _pydict_get(eng, recv, a, kw, st, fr, k, node):
     if isinstance(a[0], str):
@@ -905,10 +918,19 @@ def _anyall(eng, a, kw, st, fr, k, node):
     raise Unsupported(name + " of " + type(x).__name__)
 
 
+class PySet:
+    """set(<literal list>) of symbolic scalars / tuples of them: only its cardinality is modelled"""
+
+    def __init__(self, elems):
+        self.elems = elems
+
+
 @lib("set")
 def _set(eng, a, kw, st, fr, k, node):
     if not a:
         return k(Opq(z3.Const("emptyset", V)), st)
+    if isinstance(a[0], list) and a[0] and all(isinstance(x, tuple) or _is_z3(x) for x in a[0]):
+        return k(PySet(list(a[0])), st)
     return k(Opq(z3.Function("fn:set", V, V)(eng.to_v(a[0]))), st)
 
 
